@@ -385,6 +385,22 @@ where
                 }
                 vars
             }
+            LTermInner::Compound(compound) => {
+                fn collect<U: User, E: Engine<U>>(
+                    object: &dyn CompoundObject<U, E>,
+                    vars: &mut Vec<LTerm<U, E>>,
+                ) {
+                    for child in object.children() {
+                        match child.as_term() {
+                            Some(term) => vars.extend(term.anyvars()),
+                            None => collect(child, vars),
+                        }
+                    }
+                }
+                let mut vars = vec![];
+                collect(compound.as_ref(), &mut vars);
+                vars
+            }
             _ => {
                 if self.is_any() {
                     vec![self.clone()]
